@@ -82,7 +82,8 @@ META = {
         "so a branch taken on a translated instead of the raw type field is seen; a first-wins guard in v1 "
         "is reported), the substring/separator, type-equality and location-suffix constants of the v2 loader, the entry-line "
         "boundary set (str.splitlines; bytes.splitlines knows LF/CR/CRLF only, told apart by how the receiver was produced) for v1 and v2 entries and for the v1 project/version lines (Sphinx takes them from the same "
-        "splitlines list), the item type to_sphinx stores (the constructor and keywords Sphinx's loader uses, e.g. "
+        "splitlines list) and are taken by position from a line source that yields every line, blank ones included (no "
+        "emptiness filter in readlines or at the next() calls), the item type to_sphinx stores (the constructor and keywords Sphinx's loader uses, e.g. "
         "_InventoryItem(project_name, project_version, uri, display_name) for Sphinx >= 8.2), the base url joined into the "
         "location by to_sphinx with the function Sphinx's loader uses (posixpath.join), and the '-' sentinel of to_sphinx / from_sphinx / Sphinx's v1 loader "
         "(from_sphinx must map exactly '' and '-' to None: lossless round trip)."
@@ -2143,6 +2144,28 @@ class StmtBuf:
         tg = st.targets if isinstance(st, ast.Assign) else [st.target] if isinstance(st, (ast.AugAssign, ast.AnnAssign)) else st.targets if isinstance(st, ast.Delete) else []
         val = getattr(st, "value", None) if isinstance(st, (ast.Assign, ast.AugAssign, ast.AnnAssign)) else None
         hit = [t for t in tg if any(_is_b(n, b) for n in ast.walk(t))]
+        self.moved_whole = False
+        if hit and isinstance(st, ast.Assign) and len(tg) == 1 and isinstance(tg[0], (ast.Tuple, ast.List)) and isinstance(val, (ast.Tuple, ast.List)) and len(val.elts) == len(tg[0].elts) and sum(1 for t in tg[0].elts if _is_b(t, b)) == 1 and not any(isinstance(x, ast.Starred) for x in list(tg[0].elts) + list(val.elts)):
+            # parallel assignment: every right-hand side is evaluated first
+            for t_, v_ in zip(tg[0].elts, val.elts):
+                if _is_b(t_, b):
+                    if _empty_bytes(v_):
+                        self.store = "reset"
+                    elif _is_b(v_, b):
+                        pass
+                    elif any(_is_b(n, b) for n in ast.walk(v_)):
+                        raise Unsupported(f"{where}: store to {b} not understood: {short(st, 60)}")
+                    else:
+                        self.store = "other"
+                elif _is_b(v_, b):
+                    if not isinstance(t_, (ast.Name, ast.Attribute)):
+                        raise Unsupported(f"{where}: store to {b} not understood: {short(st, 60)}")
+                    self.whole.append(v_)  # the whole buffer is handed on under another name
+                    self.moved_whole = True
+                    skip.add(v_)
+                elif any(_is_b(n, b) for n in ast.walk(v_)):
+                    raise Unsupported(f"{where}: store to {b} not understood: {short(st, 60)}")
+            hit = []
         if hit:
             if len(tg) != 1 or not _is_b(tg[0], b):
                 raise Unsupported(f"{where}: store to {b} not understood: {short(st, 60)}")
@@ -2532,7 +2555,7 @@ def _judge_buffer(rep: Report, M: ReaderModel, m: FunctionInfo, b: str) -> None:
             if init:
                 rep.ok(rid, k, site, "initialisation")
                 continue
-            us = [u for u, j in inf.items() if j.whole and u is not st and cfg.dominates(u, st) and not any(ev(x) for x in _between(cfg, u, st))]
+            us = [st] if getattr(i, "moved_whole", False) else [u for u, j in inf.items() if j.whole and u is not st and cfg.dominates(u, st) and not any(ev(x) for x in _between(cfg, u, st))]
             if us:
                 rep.ok(rid, k, site, f"whole buffer consumed by `{short(us[0], 50)}`")
             else:
@@ -2595,6 +2618,9 @@ def _judge_buffer(rep: Report, M: ReaderModel, m: FunctionInfo, b: str) -> None:
             if not getattr(i, what):
                 continue
             k = f"{m.fq}|{b}|consumed {what} is discarded|{short(u, 60)}"
+            if what == "whole" and getattr(i, "moved_whole", False) and i.store == "reset":
+                rep.ok(rid, k, mod.site(u), "moved out and emptied in one parallel assignment")
+                continue
             bad = None
             seen = set()
             work = list(cfg.succ.get(u, []))
@@ -2696,6 +2722,8 @@ def _bytes_provenance(e, fi: FunctionInfo, M: "ReaderModel", gens: set[str], at:
                 binds.append(("iter", n.iter))
             elif isinstance(n, ast.Assign) and any(_is_name(t, e.id) for t in n.targets):
                 binds.append(("is", n.value))
+            elif isinstance(n, ast.Assign) and len(n.targets) == 1 and isinstance(n.targets[0], (ast.Tuple, ast.List)) and isinstance(n.value, (ast.Tuple, ast.List)) and len(n.value.elts) == len(n.targets[0].elts) and any(_is_name(t, e.id) for t in n.targets[0].elts):
+                binds += [("is", v_) for t_, v_ in zip(n.targets[0].elts, n.value.elts) if _is_name(t_, e.id)]
             elif isinstance(n, (ast.AugAssign, ast.AnnAssign, ast.NamedExpr)) and _is_name(n.target, e.id):
                 raise Unsupported(f"{fi.fq}: `{e.id}` is bound in a way the decode rule does not follow")
         if e.id in fi.params or not binds:
@@ -2802,8 +2830,15 @@ def _judge_line_loops(rep: Report, M: "ReaderModel", funcs: list[FunctionInfo]) 
     for fi in funcs:
         cfg = get_cfg(fi)
         for c in fi.local_nodes():
-            # iter(reader.readline, sentinel)
-            if isinstance(c, ast.Call) and isinstance(c.func, ast.Name) and c.func.id == "iter" and len(c.args) == 2 and isinstance(c.args[0], ast.Attribute) and c.args[0].attr == "readline":
+            # iter(<callable that returns the next line>, sentinel): a line equal to the sentinel ends the iteration
+            def line_callable(f_) -> bool:
+                if isinstance(f_, ast.Attribute) and f_.attr in ("readline", "__next__"):
+                    return True
+                if isinstance(f_, ast.Lambda):
+                    return any(isinstance(x, ast.Call) and ((isinstance(x.func, ast.Attribute) and x.func.attr == "readline") or (isinstance(x.func, ast.Name) and x.func.id == "next")) for x in ast.walk(f_.body))
+                return False
+
+            if isinstance(c, ast.Call) and isinstance(c.func, ast.Name) and c.func.id == "iter" and len(c.args) == 2 and line_callable(c.args[0]) and _const(c.args[1]) in ("", b""):
                 n += 1
                 rep.violation(rid, f"{fi.fq}|line loop ends on an empty line", fi.module.site(c), f"`{short(c, 50)}` stops at the first line equal to {short(c.args[1], 10)}: a blank line in the body ends the iteration and every later entry is silently lost (end of stream is signalled by {M.E}, not by the line's value)")
         loops = [l for l in fi.local_nodes() if isinstance(l, (ast.While, ast.For))]
@@ -2991,8 +3026,7 @@ def r4_buffer_conservation(corpus: Corpus, rep: Report, tier: str):
     if _judge_decodes(rep, M, M.methods + [A.load, A.v1, A.v2]) < 1:
         raise Unsupported(f"{M.ci.fq}: no decode() of the byte stream found")
     # line loops end on the eof flag; bounded decompression keeps its tail
-    if _judge_line_loops(rep, M, M.methods + [A.load, A.v1, A.v2]) < 1:
-        raise Unsupported(f"{M.ci.fq}: no loop over readline() found")
+    _judge_line_loops(rep, M, M.methods + [A.load, A.v1, A.v2])  # none when no loop calls readline()
     _judge_decompress(rep, M)
     _judge_stream_end(rep, M)
     _judge_read_recursion(rep, M)
@@ -3631,7 +3665,10 @@ def r5_constants(corpus: Corpus, rep: Report, tier: str):
                     raise Unsupported(f"{meth.fq}: separator {sorted(bs)} combined with splitlines()")
                 bs = sb
             if not bs:
-                raise Unsupported(f"{meth.fq}: line separator not found")
+                splitting = [c for f_ in fqs for mm in M.methods if mm.fq == f_ for c in mm.local_nodes() if isinstance(c, ast.Call) and ((isinstance(c.func, ast.Attribute) and c.func.attr in ("split", "rsplit", "splitlines", "find", "rfind", "index", "partition", "rpartition", "finditer", "findall")) or (dotted(c.func) or "").startswith("re."))]
+                if splitting:
+                    raise Unsupported(f"{meth.fq}: line separator not found")
+                # nothing cuts the text into lines: the rest of the stream is handed out as one line
             m_bound, where, site = bs, meth.fq, meth.site()
         else:
             raise Unsupported(f"how MyST produces {role} entry lines was not understood ({sorted(meth_attr)})")
@@ -3685,6 +3722,8 @@ def r5_constants(corpus: Corpus, rep: Report, tier: str):
                 if isinstance(arg, ast.Attribute) and arg.attr == "__next__" and isinstance(arg.value, ast.Name):
                     return header_source(caller, ast.Call(func=ast.Name(id="next", ctx=ast.Load()), args=[arg.value], keywords=[]), ctx_[:-1], depth + 1)
                 return None
+            if isinstance(x, ast.Call) and isinstance(x.func, ast.Name) and x.func.id == "next" and x.args and isinstance(x.args[0], ast.GeneratorExp) and any(g.ifs for g in x.args[0].generators):
+                return "filtered"  # next(l for l in lines if l): the position of a header line depends on the other lines
             if isinstance(x, ast.Call) and isinstance(x.func, ast.Name) and x.func.id == "next" and x.args and isinstance(x.args[0], ast.Name):
                 ds = [y for y in fi_.local_nodes() if isinstance(y, ast.Assign) and any(_is_name(t_, x.args[0].id) for t_ in y.targets)]
                 if len(ds) == 1 and any(isinstance(z, ast.Call) and isinstance(z.func, ast.Attribute) and z.func.attr == "readlines" for z in ast.walk(ds[0].value)):
@@ -3695,6 +3734,32 @@ def r5_constants(corpus: Corpus, rep: Report, tier: str):
 
     for what, me_, se_ in (("project", ne1, sne), ("version", ve1, sve)):
         ms_, ss_ = header_source(own1, me_, ctx1), header_source(s_own, se_, _sctx)
+        # positional header lines need an unfiltered line sequence (Sphinx: lines[0], lines[1] of splitlines())
+        if ss_ in ("list", "iter") and ms_ in ("list", "iter", "filtered"):
+            kp = f"{A.v1.fq}|v1 {what} line taken by position from every line"
+            dropped = None
+            if ms_ == "filtered":
+                dropped = (own1.module.site(me_), "the header line is the next line that passes a filter")
+            else:
+                for mname in sorted(_line_sources([A.v1]) & set(M.ci.methods)):
+                    lm = M.ci.methods[mname]
+                    lcfg = get_cfg(lm)
+                    # names that hold a line inside the line source: results of readline(), items of splitlines()
+                    lvars = {n_.targets[0].id for n_ in lm.local_nodes() if isinstance(n_, ast.Assign) and len(n_.targets) == 1 and isinstance(n_.targets[0], ast.Name) and any(isinstance(c_, ast.Call) and isinstance(c_.func, ast.Attribute) and c_.func.attr in ("readline", "decode") for c_ in ast.walk(n_.value))}
+                    lvars |= {n_.target.id for n_ in lm.local_nodes() if isinstance(n_, (ast.For, ast.comprehension)) and isinstance(n_.target, ast.Name) and any(isinstance(c_, ast.Call) and isinstance(c_.func, ast.Attribute) and c_.func.attr in ("splitlines", "split") for c_ in ast.walk(n_.iter))}
+                    for y in lm.local_nodes():
+                        if isinstance(y, (ast.Yield, ast.YieldFrom)):
+                            for t_, pol_ in lcfg.guards(lcfg.stmt_of(y)):
+                                if any(isinstance(n_, ast.Name) and n_.id in lvars for n_ in ast.walk(t_)):
+                                    dropped = (lm.module.site(y), f"{lm.qualname} yields a line only when `{'' if pol_ else 'not '}{short(t_, 40)}`")
+                        if isinstance(y, (ast.GeneratorExp, ast.ListComp)) and any(g.ifs and any(isinstance(n_, ast.Name) and n_.id == getattr(g.target, "id", None) for i_ in g.ifs for n_ in ast.walk(i_)) for g in y.generators) and any(isinstance(c_, ast.Call) and isinstance(c_.func, ast.Attribute) and c_.func.attr in ("splitlines", "split") for g in y.generators for c_ in ast.walk(g.iter)):
+                            dropped = (lm.module.site(y), f"{lm.qualname} filters the lines it yields (`{short(y, 50)}`)")
+            if dropped is None:
+                rep.ok(rid, kp, own1.module.site(me_), "the line source yields every line, blank ones included")
+            else:
+                rep.violation(rid, kp, dropped[0], f"{dropped[1]}: the v1 '# {what.capitalize()}:' line is identified by its position, so when it (or the line before it) is blank the next entry line is taken for it - the {what} becomes the tail of that entry and the entry is lost, whereas Sphinx {ver} takes lines[0] / lines[1] of the unfiltered str.splitlines() list")
+            if ms_ == "filtered":
+                continue
         k = f"{A.v1.fq}|v1 {what} line boundaries"
         if ms_ is None or ss_ is None:
             raise Unsupported(f"where the v1 {what} line comes from was not understood ({ms_}, {ss_})")
@@ -4063,6 +4128,21 @@ def mutants(corpus: Corpus):
             ], "a position in")
         else:
             out.append(("c18-line-end-searched-in-new-chunk-only", "readline has no `while (pos := buffer.find(sep)) ...` loop"))
+    # 7b1698e (round 14): blank lines are kept by readlines, header lines are positional
+    if rls is not None:
+        yf2 = find_node(rls, lambda n: isinstance(n, ast.Expr) and isinstance(n.value, ast.YieldFrom) and isinstance(n.value.value, ast.Call) and isinstance(n.value.value.func, ast.Attribute) and n.value.value.func.attr == "splitlines")
+        if yf2 is not None:
+            i_ = " " * yf2.col_offset
+            sl_ = ast.get_source_segment(src, yf2.value.value)
+            add("c18-readlines-drops-blank-lines-reverted", "C18.R5", yf2, f"for line in {sl_}:\n{i_}    if line:\n{i_}        yield line", "taken by position")
+            add("c18-readlines-drops-whitespace-only-lines", "C18.R5", yf2, f"yield from (line for line in {sl_} if line.strip())", "taken by position")
+        else:
+            out.append(("c18-readlines-drops-blank-lines-reverted", "readlines no longer yields from a splitlines() call"))
+    nx2 = [n for n in v1.local_nodes() if isinstance(n, ast.Call) and isinstance(n.func, ast.Name) and n.func.id == "next" and n.args and isinstance(n.args[0], ast.Name)]
+    if nx2:
+        add("c18-v1-header-skips-blank-lines", "C18.R5", nx2[-1], f'next((l for l in {nx2[-1].args[0].id} if l), "")', "taken by position")
+    else:
+        out.append(("c18-v1-header-skips-blank-lines", "the v1 loader does not take its header lines with next()"))
     # the refactored shapes of round 13, each with the defect the rule must still see
     if rl is not None and rb is not None:
         M_ = _reader(corpus)
